@@ -27,8 +27,8 @@ RULE = (
     "Hypothesis: meta-models from vlib.mmgen (accepted), the same with 2-4 near-miss mutations (vlib.mmmut + planted "
     "constructor/property mismatches, duplicate classes, unknown types; 'rejected'), models with implementation-specific "
     "functions whose snippets are missing (generator errors), snippet directories with >=2 invalid keys, and the "
-    "repository's own fixtures (dev/test_data/main/<target>/expected/<case>, aas_core_meta.v3 in the thorough tier) plus three "
-    "fixed regression inputs (constructor/property mismatch, malformed :attr: reference, invalid snippet keys) "
+    "repository's own fixtures (dev/test_data/main/<target>/expected/<case>, aas_core_meta.v3 in the thorough tier) plus four "
+    "fixed regression inputs (constructor/property mismatch, malformed :attr: reference, invalid snippet keys, attribute as enumeration-literal target) "
     "x targets (rotating, all 8 in thorough) x configurations; plus a stream of schema-form models (192 quick / 2400 "
     "thorough: hierarchies whose invariants are all in the forms the schema inference recognises, with tightenings "
     "of inherited properties and chains of constrained primitives) for the jsonschema and xsd targets only. Every (model, target) is run in (a) four batch child "
@@ -237,6 +237,8 @@ CORNERS = [
     # several invalid snippet keys: the errors were listed in directory order
     (_CORNER_HEAD + "class Foo(DBC):\n    aaa: int\n\n    def __init__(self, aaa: int) -> None:\n        self.aaa = aaa\n"
      + _CORNER_TAIL, {"bad key.txt": "x", "1x.txt": "x", "a-b.txt": "x", "dir-x/c.txt": "x", "binary.bin": BIN_MARK}),
+    # an enumeration literal assigned to an attribute: the message printed the AST node with its address
+    (_CORNER_HEAD + 'class Quux_kind(Enum):\n    Quux_kind.x = "a"\n' + _CORNER_TAIL, {}),
 ]
 
 
